@@ -42,8 +42,12 @@ def run_traces(rep: Any, scenarios: list[dict[str, Any]], label: str, nontrivial
         for f in feats:
             rep.extra.setdefault('scenario_features', {}).setdefault(f, 0)
             rep.extra['scenario_features'][f] += 1
-        if t['stall']:
-            rep.violation(f'{t["id"]}: event loop stalled', payload=t)
+        if t['stall'] and t.get('livelock') and v['verdict'] == 'accepted' and v.get('excuse') == 'F9':
+            rep.classified('F9', f'{t["id"]}: the operator never comes to rest: the deletion handlers are run again and again while the object is held '
+                                 f'for a daemon that is still stopping ({sum(1 for e in t["events"] if e["ev"] == "inv")} invocations in the kept prefix)',
+                           payload={k: t[k] for k in ('id', 'scenario')})
+        elif t['stall']:
+            rep.violation(f'{t["id"]}: event loop stalled' + (f' (livelock; prefix: {v["verdict"]}, {v.get("excuse")})' if t.get('livelock') else ''), payload=t)
         elif v['verdict'] != 'accepted':
             rep.violation(f'{t["id"]}: {v["verdict"]}', payload=t)
     if traces:
